@@ -885,7 +885,11 @@ class Interp:
             if not (is_conc(b) and _num(b) > 0):
                 self.ctx.definedness(cmp(">", b, 0), "modulo: positive divisor (modelled case)")
             return zi(a) % zi(b)
-        raise Unsupported("real modulo")
+        # real modulo (python / numpy semantics for a positive modulus): a - b*floor(a/b)
+        if not (is_conc(b) and _num(b) > 0):
+            self.ctx.definedness(cmp(">", b, 0), "modulo: positive modulus (modelled case)")
+        q = r_div(a, b, self.ctx)
+        return r_sub(a, r_mul(b, r_floor(q)))
 
     def ex_Subscript(self, e, fr):
         base = self.eval(e.value, fr)
